@@ -192,13 +192,17 @@ def run(chk, tier, prop):
             nbad += 1
         elif project(prop, i[:4]) != project(prop, m[:4]):
             pi, pm = project(prop, i[:4]), project(prop, m[:4])
-            if prop == "C18":
-                # the hand-off theorem promises one ready signal per outstanding requester: one that the model
-                # delivers and the implementation never does is a concrete failure
-                ri = [e[2][0] for e in i[1] if e[0] == 19 and e[1] == 12]
-                rm = [e[2][0] for e in m[1] if e[0] == 19 and e[1] == 12]
-                if len(ri) < len(rm) and ri == rm[:len(ri)] and i[0] and i[0][-1] == 4:
-                    chk.violation("C18:ready-signal-missing", "a requester is never told that its request failed/succeeded: the model delivers ready signals to handlers %s, the implementation only to %s and then waits for ever" % (rm, ri),
+            # liveness-type failures: the theorem-backed model performs a step that the implementation never
+            # performs before it comes to rest (blocked): a concrete failure, not just a disagreement
+            MISSING = {"C18": (12, None, "a requester is never told that its request failed/succeeded (ready signal)"),
+                       "C06": (12, 1, "a typed line was consumed but never delivered to the requester"),
+                       "C05": (10, None, "a modal push whose screen was closed/discarded never returned to its caller")}
+            if prop in MISSING and i[0] and i[0][-1] == 4:
+                tag, flag, text = MISSING[prop]
+                sel = lambda t: [e[2][:2] for e in t if e[0] == 19 and e[1] == tag and (flag is None or e[2][1] == flag)]
+                ri, rm = sel(i[1]), sel(m[1])
+                if len(ri) < len(rm) and ri == rm[:len(ri)]:
+                    chk.violation("%s:%s-missing" % (prop, UT[tag]), "%s: the model performs %s, the implementation only %s and then waits for ever" % (text, rm, ri),
                                   dict(kind="screen", prop=prop, case=c, trace=pretty(i[1])), found=True)
                     nbad += 1
                     continue
